@@ -28,7 +28,7 @@ Rank(t) == Len(t.shape)
 Iota(dt, shape, base) == T(dt, shape, [k \in 1..Size(shape) |-> base + k])
 Const(dt, shape, v) == T(dt, shape, [k \in 1..Size(shape) |-> v])
 Vec(dt, seq) == T(dt, <<Len(seq)>>, seq)
-Scalar(dt, v) == T(dt, <<>>, <<v>>)
+ScalarT(dt, v) == T(dt, <<>>, <<v>>)
 
 \* all shapes of rank lo..hi with extents in ext (a set of positive ints)
 ShapesOf(ranks, exts) == UNION {[1..r -> exts] : r \in ranks}
